@@ -154,3 +154,199 @@ pub fn cms_strategy() -> BoxedStrategy<Case> {
 pub fn hll_strategy() -> BoxedStrategy<Case> {
     strategy((4usize..=12).boxed(), (0usize..=1).boxed())
 }
+
+// ---------------------------------------------------------------- HashIterBuilder (mechanism behind Bloom and CountMinSketch)
+
+#[derive(Clone, Debug, Serialize, Deserialize)]
+pub struct HiCase {
+    pub m: usize,
+    pub k: usize,
+    pub hk: crate::support::hashers::HKind,
+    pub obj: u64,
+}
+
+/// Documented contract of `HashIterBuilder`: `iter_for(x)` emits exactly k values `(h1 + i*h2 + f(i)) mod m` in [0, m).
+pub struct HashIterCheck;
+
+impl Check for HashIterCheck {
+    type Case = HiCase;
+    fn name(&self) -> &'static str {
+        "hash_iter"
+    }
+    fn eval(&self, c: &HiCase) -> Verdict {
+        use pdatastructs::hash_utils::HashIterBuilder;
+        let (m, k) = (c.m.max(1), c.k);
+        let b = match catch(|| HashIterBuilder::new(m, k, crate::support::hashers::GenBH(c.hk))) {
+            Ok(b) => b,
+            Err(p) => return fail(format!("hash_iter-new-{}", panic_sig(&p)), format!("HashIterBuilder::new({}, {}, {:?}) panicked: {}", m, k, c.hk, p)),
+        };
+        if b.m() != m || b.k() != k {
+            return fail("hash_iter:getters", format!("m()/k() = {}/{} after new({}, {})", b.m(), b.k(), m, k));
+        }
+        let v: Vec<usize> = match catch(|| b.iter_for(&c.obj).take(k + 5).collect()) {
+            Ok(v) => v,
+            Err(p) => return fail(format!("hash_iter-{}", panic_sig(&p)), format!("iter_for({}) panicked for m={}, k={}, {:?}: {}", c.obj, m, k, c.hk, p)),
+        };
+        if v.len() != k {
+            return fail("hash_iter:count!=k", format!("iter_for yields {} values, k = {} (m = {})", v.len(), k, m));
+        }
+        if let Some(x) = v.iter().find(|&&x| x >= m) {
+            return fail("hash_iter:out-of-range", format!("iter_for yields {} which is not in [0, m = {})", x, m));
+        }
+        let again: Vec<usize> = b.iter_for(&c.obj).collect();
+        if again != v {
+            return fail("hash_iter:not-deterministic", format!("two iter_for calls for the same object differ: {:?} vs {:?}", v, again));
+        }
+        let mm = m as u128;
+        for i in 0..k {
+            if b.f(i) as u128 >= mm {
+                return fail("hash_iter:f-out-of-range", format!("f({}) = {} is not in [0, m = {})", i, b.f(i), m));
+            }
+        }
+        if k >= 3 {
+            // h1, h2 follow from the first two values; all later ones are then determined by the documented formula
+            let h1 = (v[0] as u128 + mm - b.f(0) as u128) % mm;
+            let h2 = (v[1] as u128 + 2 * mm - b.f(1) as u128 - h1) % mm;
+            for i in 2..k {
+                let want = (h1 + (i as u128 % mm) * h2 + b.f(i) as u128) % mm;
+                if v[i] as u128 != want {
+                    return fail(
+                        "hash_iter:formula",
+                        format!("value #{} is {} but (h1 + i*h2 + f(i)) mod m = {} with h1 = {}, h2 = {} derived from values #0, #1 (m = {}, k = {}, f(i) = {})", i, v[i], want, h1, h2, m, k, b.f(i)),
+                    );
+                }
+            }
+        }
+        Verdict::Pass(Info::new(k >= 3 && m >= 2, hash_json(c)).class_if(m == 1, "m=1").class_if(k == 0, "k=0").class_if(k > m, "k>m").class_if(m > 1 << 20, "large_m"))
+    }
+}
+
+pub fn hash_iter_strategy() -> BoxedStrategy<HiCase> {
+    let m = prop_oneof![3 => 1usize..=8, 3 => 1usize..=64, 2 => 1usize..=5000, 1 => (1u32..=31).prop_map(|e| 1usize << e), 1 => 1usize..=(1usize << 31)];
+    let k = prop_oneof![6 => 0usize..=8, 2 => 0usize..=40];
+    (m, k, crate::support::filters::hkind_any(), prop_oneof![0u64..20, any::<u64>()]).prop_map(|(m, k, hk, obj)| HiCase { m, k, hk, obj }).boxed()
+}
+
+// ---------------------------------------------------------------- default-hasher convenience constructors
+
+#[derive(Clone, Debug, Serialize, Deserialize)]
+pub struct DcCase {
+    /// 0 Bloom::with_properties, 1 Cuckoo::with_properties_4, 2 Cuckoo::with_properties_8, 3 CountMinSketch::with_point_query_properties,
+    /// 4 Bloom::with_params, 5 Cuckoo::with_params, 6 CountMinSketch::with_params
+    pub which: u8,
+    pub n: usize,
+    pub p: f64,
+    pub seed: u64,
+    pub a: usize,
+    pub b: usize,
+}
+
+/// The constructors without a hasher argument promise the same structure as their `_and_hash` / `_and_hasher`
+/// counterparts given `BuildHasherDefault<DefaultHasher>`: same derived parameters and, since that hasher is
+/// deterministic, the same answers on the same stream.
+pub struct DefaultCtors;
+
+impl Check for DefaultCtors {
+    type Case = DcCase;
+    fn name(&self) -> &'static str {
+        "default_constructors"
+    }
+    fn eval(&self, c: &DcCase) -> Verdict {
+        use crate::support::rng::SmRng;
+        use pdatastructs::filters::cuckoofilter::CuckooFilter;
+        use std::collections::hash_map::DefaultHasher;
+        use std::hash::BuildHasherDefault;
+        let bh = BuildHasherDefault::<DefaultHasher>::default();
+        let keys: Vec<u64> = (0..c.n.min(300) as u64).map(|i| mix(c.seed, i)).collect();
+        let probes: Vec<u64> = (0..300u64).map(|i| mix(c.seed ^ 0x77, i)).collect();
+        let which = c.which % 7;
+        let r = catch(|| -> Result<(), (String, String)> {
+            match which {
+                0 | 4 => {
+                    let (mut f1, mut f2): (BloomFilter<u64>, BloomFilter<u64>) =
+                        if which == 0 { (BloomFilter::with_properties(c.n, c.p), BloomFilter::with_properties_and_hash(c.n, c.p, bh.clone())) } else { (BloomFilter::with_params(c.a, c.b), BloomFilter::with_params_and_hash(c.a, c.b, bh.clone())) };
+                    if (f1.m(), f1.k()) != (f2.m(), f2.k()) {
+                        return Err(("bloom:default-ctor-params".into(), format!("(m, k) = ({}, {}) without hasher argument but ({}, {}) with the default hasher passed explicitly", f1.m(), f1.k(), f2.m(), f2.k())));
+                    }
+                    if which == 4 && (f1.m(), f1.k()) != (c.a, c.b) {
+                        return Err(("bloom:getters".into(), format!("with_params({}, {}) reports m() = {}, k() = {}", c.a, c.b, f1.m(), f1.k())));
+                    }
+                    for x in &keys {
+                        if f1.insert(x).unwrap() != f2.insert(x).unwrap() {
+                            return Err(("bloom:default-ctor-behaviour".into(), format!("insert({}) answers differ between the two constructors", x)));
+                        }
+                    }
+                    if let Some(x) = keys.iter().chain(probes.iter()).find(|x| f1.query(x) != f2.query(x)) {
+                        return Err(("bloom:default-ctor-behaviour".into(), format!("query({}) differs between the two constructors", x)));
+                    }
+                }
+                1 | 2 | 5 => {
+                    let (mut f1, mut f2): (CuckooFilter<u64, SmRng>, CuckooFilter<u64, SmRng>) = match which {
+                        1 => (CuckooFilter::with_properties_4(c.p, c.n, SmRng::new(c.seed)), CuckooFilter::with_properties_and_hash_4(c.p, c.n, SmRng::new(c.seed), bh.clone())),
+                        2 => (CuckooFilter::with_properties_8(c.p, c.n, SmRng::new(c.seed)), CuckooFilter::with_properties_and_hash_8(c.p, c.n, SmRng::new(c.seed), bh.clone())),
+                        _ => {
+                            let (bs, nb, l) = (2 + c.a % 7, 1usize << (1 + c.b % 6), 2 + (c.n % 63));
+                            let f: CuckooFilter<u64, SmRng> = CuckooFilter::with_params(SmRng::new(c.seed), bs, nb, l);
+                            if (f.bucketsize(), f.n_buckets(), f.l_fingerprint()) != (bs, nb, l) {
+                                return Err(("cuckoo:getters".into(), format!("with_params(_, {}, {}, {}) reports bucketsize/n_buckets/l_fingerprint = {}/{}/{}", bs, nb, l, f.bucketsize(), f.n_buckets(), f.l_fingerprint())));
+                            }
+                            (f, CuckooFilter::with_params_and_hash(SmRng::new(c.seed), bs, nb, l, bh.clone()))
+                        }
+                    };
+                    let (g1, g2) = ((f1.bucketsize(), f1.n_buckets(), f1.l_fingerprint()), (f2.bucketsize(), f2.n_buckets(), f2.l_fingerprint()));
+                    if g1 != g2 {
+                        return Err(("cuckoo:default-ctor-params".into(), format!("(bucketsize, n_buckets, l_fingerprint) = {:?} without hasher argument but {:?} with the default hasher passed explicitly", g1, g2)));
+                    }
+                    if which != 5 && g1.0 != if which == 1 { 4 } else { 8 } {
+                        return Err(("cuckoo:default-ctor-bucketsize".into(), format!("with_properties_{} built buckets of {} slots", if which == 1 { 4 } else { 8 }, g1.0)));
+                    }
+                    for x in &keys {
+                        if f1.insert(x).is_ok() != f2.insert(x).is_ok() {
+                            return Err(("cuckoo:default-ctor-behaviour".into(), format!("insert({}) outcomes differ between the two constructors", x)));
+                        }
+                    }
+                    if f1.len() != f2.len() {
+                        return Err(("cuckoo:default-ctor-behaviour".into(), format!("len() {} vs {}", f1.len(), f2.len())));
+                    }
+                    if let Some(x) = keys.iter().chain(probes.iter()).find(|x| f1.query(x) != f2.query(x)) {
+                        return Err(("cuckoo:default-ctor-behaviour".into(), format!("query({}) differs between the two constructors", x)));
+                    }
+                }
+                _ => {
+                    let (mut s1, mut s2): (CountMinSketch<u64>, CountMinSketch<u64>) = if which == 3 {
+                        (CountMinSketch::with_point_query_properties(c.p, 1.0 / (2.0 + c.a as f64)), CountMinSketch::with_point_query_properties_and_hasher(c.p, 1.0 / (2.0 + c.a as f64), bh.clone()))
+                    } else {
+                        (CountMinSketch::with_params(1 + c.a % 100, 1 + c.b % 8), CountMinSketch::with_params_and_hasher(1 + c.a % 100, 1 + c.b % 8, bh.clone()))
+                    };
+                    if (s1.w(), s1.d()) != (s2.w(), s2.d()) {
+                        return Err(("cms:default-ctor-params".into(), format!("(w, d) = ({}, {}) without hasher argument but ({}, {}) with the default hasher passed explicitly", s1.w(), s1.d(), s2.w(), s2.d())));
+                    }
+                    if which == 6 && (s1.w(), s1.d()) != (1 + c.a % 100, 1 + c.b % 8) {
+                        return Err(("cms:getters".into(), format!("with_params({}, {}) reports w() = {}, d() = {}", 1 + c.a % 100, 1 + c.b % 8, s1.w(), s1.d())));
+                    }
+                    for x in &keys {
+                        if s1.add(x) != s2.add(x) {
+                            return Err(("cms:default-ctor-behaviour".into(), format!("add({}) results differ between the two constructors", x)));
+                        }
+                    }
+                    if let Some(x) = keys.iter().chain(probes.iter()).find(|x| s1.query_point(x) != s2.query_point(x)) {
+                        return Err(("cms:default-ctor-behaviour".into(), format!("query_point({}) differs between the two constructors", x)));
+                    }
+                }
+            }
+            Ok(())
+        });
+        match r {
+            Err(p) => fail(format!("default-ctor-{}", panic_sig(&p)), format!("{:?}: {}", c, p)),
+            Ok(Err((sig, msg))) => fail(sig, format!("{} — {:?}", msg, c)),
+            Ok(Ok(())) => Verdict::Pass(Info::new(!keys.is_empty(), hash_json(c)).class(["bloom_props", "cuckoo4_props", "cuckoo8_props", "cms_props", "bloom_params", "cuckoo_params", "cms_params"][which as usize])),
+        }
+    }
+}
+
+/// `whiches`: the constructor kinds this property owns
+pub fn default_ctor_strategy(whiches: &'static [u8]) -> BoxedStrategy<DcCase> {
+    (prop::sample::select(whiches), prop_oneof![1usize..=20, 1usize..=2000], prop_oneof![Just(0.5f64), Just(0.1), Just(0.01), Just(0.001), 0.0005f64..0.9], any::<u64>(), 1usize..=512, 1usize..=8)
+        .prop_map(|(which, n, p, seed, a, b)| DcCase { which, n, p, seed, a, b })
+        .boxed()
+}
